@@ -39,6 +39,7 @@ NOTES = ["forbid(i, j) has no lower-bound check: a negative j is a Python negati
          "(forbid(i,-1) = forbid(i, 2^bits-1)); modelled as such, outside the documented domain"]
 
 WHICH = ["complete", "functional", "surjective", "injective", "nondecreasing"]
+BIG_BITS = {"quick": 18, "thorough": 19}      # the code tabulates 2^bits sign patterns: 2^19 tuples is what a run can afford
 
 
 def build_map(suite, info):
@@ -71,7 +72,7 @@ def build_map(suite, info):
                 return None     # documented: surjectivity only for unary mappings
             return {"force_raised": type(e).__name__}
         n = len(f)
-        if kind == 2 and info["n"] == 1 and n <= 14 and which in (0, 1, 3, 4):
+        if kind == 2 and info["n"] == 1 and n <= 20 and which in (0, 1, 3, 4):
             return single_element(F, f, info["m"], which, opb)
         if n > 13:
             return None
@@ -172,10 +173,20 @@ def single_element(F, f, m, which, opb):
                 if (sub >> i) & 1:
                     x |= 1 << b
             accepted[x] = 0
-    if slow and bits > 10:
-        return None
+    vals = range(1 << bits)
+    if slow and bits > 12:
+        # constraints that are not clauses over the element's bits are evaluated on structured values (both ends, around the
+        # range size, one bit set / one bit clear, around every power of two) and a fixed sample
+        r = common.sub_rng(0, "C04-single", bits, m)
+        top = (1 << bits) - 1
+        pick = {0, 1, top, top - 1, m - 2, m - 1, m, m + 1, m ^ 1, (m - 1) ^ top}
+        for b in range(bits):
+            pick.update(((1 << b) - 1, 1 << b, (1 << b) + 1, top ^ (1 << b), (m - 1) ^ (1 << b), m ^ (1 << b)))
+        pick.update(r.randrange(1 << bits) for _ in range(1500))
+        pick.update(int(format(x, "0{}b".format(bits))[::-1], 2) for x in list(pick) if 0 <= x <= top)
+        vals = sorted(x for x in pick if 0 <= x <= top)
     holds = common.opb_holds if opb else common.cnf_holds
-    for val in range(1 << bits):
+    for val in vals:
         got = bool(accepted[val])
         if got and slow:
             alpha = Alpha()
@@ -208,6 +219,17 @@ def build_forbid(info):
             return None
         c = f.forbid(i, j)
         ids = list(f(i, None))
+        if bits > 12:
+            # a clause is false at exactly one value of the element iff it mentions every bit variable of the element, no
+            # other variable and no variable in both polarities; that value has bit b set iff f(i,b) occurs negated
+            neg = {-l for l in c if l < 0}
+            pos_ = {l for l in c if l > 0}
+            if (neg | pos_) != {f(i, b) for b in range(bits)} or (neg & pos_):
+                return {"clause": c, "ids": ids, "what": "not false at exactly one value of the element"}
+            val = sum(1 << b for b in range(bits) if f(i, b) in neg)
+            if val != j:
+                return {"forbid": [i, j], "clause": c, "ids": ids, "value_actually_excluded": val}
+            return None
         for bitsval in range(1 << bits):
             alpha = Alpha()
             for b in range(bits):
@@ -243,8 +265,17 @@ def map_infos(ctx):
         for c in (1 << e, 3 << (e - 2), 5 << max(e - 3, 0)):
             sizes.update(x for x in (c - 2, c - 1, c, c + 1, c + 2) if 1 <= x <= (1 << pmax))
     sizes.update(common.probe_sizes(["formula/variables.py", "formula/basecnf.py", "formula/baseopb.py"], 1, 1 << pmax))
+    # every bit length up to BIG_BITS: the range sizes just below the power of two (one to three excluded bit strings, so the
+    # formula stays tiny whatever the bit length), and whatever the constants of the current source point at up to 2^BIG_BITS
+    # (a constant c stands for a size c or for a bit length c: probe_sizes yields c-1..c+1 and 2^c-1..2^c+1)
+    big_bits = BIG_BITS[tier]
+    sizes.update(common.probe_sizes(["formula/variables.py", "formula/basecnf.py", "formula/baseopb.py", "formula/opb.py",
+                                     "formula/cnf.py"], 1, 1 << big_bits, wide=True))
+    for e in range(2, big_bits + 1):
+        sizes.update(x for x in ((1 << e) - 1, (1 << e) - 2, (1 << e) - 3) if x >= 1)
     for m in sorted(sizes):
-        heavy = m > 600        # thousands of clauses of 10+ literals: CNF only, completeness only
+        excluded = (1 << (m - 1).bit_length()) - m if m > 1 else 0
+        heavy = m > 600 and excluded > 8       # thousands of clauses of 10+ literals: CNF only, completeness only
         for opb in ((False,) if heavy else (False, True)):
             out.append(("map_binary", dict(off=rng.choice([0, 0, 1, 7, 100]), n=1, m=m, which=0, opb=opb)))
         if not heavy and (m <= 40 or rng.random() < .15):
@@ -268,6 +299,19 @@ def map_infos(ctx):
         out.append(("map_forbid", dict(off=rng.choice(OFFSETS), n=n, m=m, i=rng.randint(0, n + 1),
                                        j=rng.choice([-2 ** bits - 1, -2 ** bits, -1, 0, 1, m - 1, m, 2 ** bits - 1,
                                                      2 ** bits, rng.randint(0, 2 ** bits)]))))
+    # forbid at every bit length (a clause of `bits` literals whatever the range size): range sizes that need 4..BIG_BITS
+    # bits, values with few bits set, few bits clear, alternating patterns, random ones, both ends
+    bitlens = list(range(4, big_bits + 1))
+    bitlens += [(x - 1).bit_length() for x in sizes if (x - 1).bit_length() > 9]
+    for bits in sorted(set(bitlens)):
+        for rep in range(2 if bits < 14 else 3):
+            m = rng.choice([(1 << bits) - rng.randint(0, 3), (1 << (bits - 1)) + 1 + rng.randrange(1 << (bits - 1))])
+            n = rng.randint(1, 3)
+            top = (1 << bits) - 1
+            j = rng.choice([1 << rng.randrange(bits), top ^ (1 << rng.randrange(bits)), rng.randrange(1 << bits),
+                            rng.randrange(1 << bits), (top // 3) >> rng.randint(0, 1), m - 1, m % (top + 1), 1, top - 1,
+                            rng.randrange(1 << (bits // 2)), rng.randrange(1 << bits) | 1])
+            out.append(("map_forbid", dict(off=rng.choice([0, 3, 100]), n=n, m=m, i=rng.randint(1, n), j=j)))
     return out
 
 
